@@ -100,9 +100,11 @@ func init() {
 			for _, cfg := range cfgs {
 				cfg := cfg
 				res := exploreProgram(c, p, cfg, r, func(ex *explore.Exec) bool {
-					if len(ex.Res.Panics) > 0 || ex.Res.Err != "" || !ex.Returned {
-						return true // C01's subject
+					if ex.Res.Err != "" {
+						return true // engine-level budget, counted by exploreProgram
 					}
+					// an execution that panics or never returns is judged like any other: what it printed must
+					// be a complete result of the reference semantics (the crash itself is C01's subject)
 					ms := ex.PrintMultiset()
 					if !sr.finals[ms] {
 						var fs []string
